@@ -135,6 +135,10 @@ pub trait Subject {
     fn ctor_str(&self, _raw: &str) -> Option<Obs> {
         None
     }
+    /// string family: the constructor through other `Into<String>` argument types
+    fn ctor_into_variants(&self, _raw: &str) -> Vec<(&'static str, Obs)> {
+        vec![]
+    }
     fn try_from_inner(&self, _raw: &Value) -> Option<Obs> {
         None
     }
